@@ -61,6 +61,7 @@ def live_src(r, name, form):
 HAND = [
     ("argparse", 'def set_cli_args(argument_parser):\n    """\n    Set CLI arguments\n\n    :param argument_parser: argument parser\n    :type argument_parser: ```ArgumentParser```\n\n    :returns: argument_parser\n    :rtype: ```ArgumentParser```\n    """\n    argument_parser.description = "A model"\n    argument_parser.add_argument("--layers", type=list, required=True, help="the layers")\n    argument_parser.add_argument("--extras", type=dict, required=True, help="the extras")\n    argument_parser.add_argument("--shape", type=tuple, required=True, help="the shape")\n    return argument_parser\n'),
     ("class", 'class Net(object):\n    """\n    A net\n\n    :cvar layers: the layers\n    :cvar extras: the extras\n    :cvar shape: the shape\n    """\n\n    layers: list = None\n    extras: dict = None\n    shape: tuple = None\n'),
+    ("function", 'def fit(optimiser: Union[Literal["adam", "sgd", "rmsprop"], Literal["lbfgs", "adagrad"]] = "adam", schedule: Literal["cos", "exp", "step", "linear"] = "cos"):\n    """\n    Fit it\n\n    :param optimiser: the optimiser\n\n    :param schedule: the schedule\n    """\n    return optimiser\n'),
     ("function", 'def build(layers: list, extras: dict = None, shape: tuple = None):\n    """\n    Build it\n\n    :param layers: the layers\n\n    :param extras: the extras\n\n    :param shape: the shape\n    """\n    return layers\n'),
 ]
 
